@@ -76,3 +76,23 @@ Proof. exact w_decaln_eq. Qed.
 Check C07_source_terminal_decaln : forall t, ZW t -> w_decaln Om (zabs t) (wabs t) = wres (decaln t).
 Print Assumptions C07_source_terminal_decaln.
 
+From Avt Require Import Oracles.C07Wrap Proofs.C07Wrap.
+(** Oracles/C07Wrap.v, Proofs/C07Wrap.v (second statement audit) *)
+(** "A row stops being soft-wrapped when its tail is erased or characters are deleted from it", row by row for every editing function (rows wholly erased, the cursor row when a non-empty extent reaches the last cell, DCH: unwrapped; every other row keeps its mark; an EMPTY extent in the wrap-pending position unwraps too - `when` is read as `not only when`), outside the class kf1_C07 *)
+Theorem C07_wrap_mark : forall p p' t f t', TInv t -> execute t f = Ok t' -> kf1_C07 (mkVt p t) f = false -> holds_C07_wrapmark (mkVt p t) f (mkVt p' t') = true.
+Proof. exact C07_wrapmark. Qed.
+Check C07_wrap_mark : forall p p' t f t', TInv t -> execute t f = Ok t' -> kf1_C07 (mkVt p t) f = false -> holds_C07_wrapmark (mkVt p t) f (mkVt p' t') = true.
+Print Assumptions C07_wrap_mark.
+
+(** known finding KF-C07-1, exact: on the WHOLE class the row is blanked completely and still soft-wrapped *)
+Theorem C07_known_finding : forall p p' t f t', TInv t -> execute t f = Ok t' -> kf1_C07 (mkVt p t) f = true -> wrapmark_kept (mkVt p t) f (mkVt p' t') = true.
+Proof. exact C07_wrapmark_kf_exact. Qed.
+Check C07_known_finding : forall p p' t f t', TInv t -> execute t f = Ok t' -> kf1_C07 (mkVt p t) f = true -> wrapmark_kept (mkVt p t) f (mkVt p' t') = true.
+Print Assumptions C07_known_finding.
+
+(** the class in words: EL 1 or ED 1, cursor in the last column or the pending position, cursor row soft-wrapped *)
+Theorem C07_known_finding_class : forall p t f, kf1_C07 (mkVt p t) f = true <-> (f = El ElToLeft \/ f = Ed EdAbove) /\ cols t <= cur_col t + 1 /\ wrapped (row_at (tview t) (cur_row t)) = true.
+Proof. exact kf1_C07_class. Qed.
+Check C07_known_finding_class : forall p t f, kf1_C07 (mkVt p t) f = true <-> (f = El ElToLeft \/ f = Ed EdAbove) /\ cols t <= cur_col t + 1 /\ wrapped (row_at (tview t) (cur_row t)) = true.
+Print Assumptions C07_known_finding_class.
+
